@@ -241,7 +241,7 @@ func storeDigest(s *model.Store) string {
 	return strings.Join(parts, ";")
 }
 
-func execC17(w *c17W, x *Exec) *Outcome {
+func execC17once(w *c17W, x *Exec) *Outcome {
 	o := &Outcome{}
 	b, _ := jsonMarshal(w.Sessions)
 	nedits := 0
@@ -479,4 +479,19 @@ func editsString(edits [][]c17Edit) string {
 		out = append(out, fmt.Sprintf("client%d[%s]", c, strings.Join(l, " ")))
 	}
 	return strings.Join(out, " ")
+}
+
+func execC17(w *c17W, x *Exec) *Outcome {
+	o := execC17once(w, x)
+	if o.Inconclusive == "step budget" && simrt.Policy(w.Run.Policy) != simrt.PolRR {
+		// only the fair policy can tell "slow" from "stuck" (DESIGN 2.6)
+		w2 := &c17W{}
+		jsonClone(w, w2)
+		w2.Run.Policy = int(simrt.PolRR)
+		w2.Run.StarveSite, w2.Run.StarveIdx = "", 0
+		o2 := execC17once(w2, x)
+		o2.Count("reran_under_fair_policy", 1)
+		return o2
+	}
+	return o
 }
